@@ -417,7 +417,7 @@ def group_index(pattern, flags, name):
     return gd[name]
 
 
-def group_language(pattern, flags, group):
+def group_language(pattern, flags, group, asserts='error'):
     """DFA of the sub-pattern of a (named or numbered) group, taken alone."""
     is_bytes = isinstance(pattern, bytes)
     N = 256 if is_bytes else 257
@@ -443,7 +443,7 @@ def group_language(pattern, flags, group):
     walk(tree)
     if len(found) != 1:
         raise AnalysisError('group %r not found exactly once in %r' % (group, pattern))
-    return sub_dfa(found[0], is_bytes, tree.state.flags | flags, N)
+    return sub_dfa(found[0], is_bytes, tree.state.flags | flags, N, asserts=asserts, tail=(asserts == 'over'))
 
 
 # -- constructors -----------------------------------------------------------
